@@ -93,7 +93,17 @@ func (tc *termCtx) term(v ssa.Value, d int) string {
 		}
 		return "$?"
 	case *ssa.FreeVar:
-		return "^" + v.Name()
+		// a captured variable is named by what the enclosing function binds to it (rename-proof):
+		// "^" + the enclosing function's term for the bound variable
+		if t, ok := ff.freeVarTerm(v); ok {
+			return "^" + t
+		}
+		// unresolvable / unwieldy binding: name the capture by its type
+		ft := v.Type()
+		if p, ok := ft.Underlying().(*types.Pointer); ok {
+			ft = p.Elem()
+		}
+		return "^" + typeShort(ft)
 	case *ssa.Global:
 		pk := ""
 		if v.Pkg != nil {
@@ -400,11 +410,62 @@ func (tc *termCtx) loadAlloc(a *ssa.Alloc, load ssa.Instruction, d int) string {
 	return "var:" + allocName(a)
 }
 
+// allocName names a local for terms.  Compiler-made temporaries keep go/ssa's label; a source
+// variable is named by its TYPE (plus an ordinal among the function's variables of that type, in
+// declaration order), never by its identifier, so that renaming a local does not change any term.
+var syntheticAlloc = map[string]bool{"makeslice": true, "new": true, "complit": true, "varargs": true, "slicelit": true}
+
+var allocNames = map[*ssa.Function]map[*ssa.Alloc]string{}
+
 func allocName(a *ssa.Alloc) string {
-	if a.Comment != "" {
+	if a.Comment == "" {
+		return a.Name()
+	}
+	if syntheticAlloc[a.Comment] {
 		return a.Comment
 	}
-	return a.Name()
+	fn := a.Parent()
+	if fn == nil {
+		return a.Comment
+	}
+	m, ok := allocNames[fn]
+	if !ok {
+		m = map[*ssa.Alloc]string{}
+		var all []*ssa.Alloc
+		for _, l := range fn.Locals {
+			all = append(all, l)
+		}
+		for _, b := range fn.Blocks {
+			for _, in := range b.Instrs {
+				if al, ok := in.(*ssa.Alloc); ok && al.Heap {
+					all = append(all, al)
+				}
+			}
+		}
+		sort.SliceStable(all, func(i, j int) bool { return all[i].Pos() < all[j].Pos() })
+		count := map[string]int{}
+		for _, al := range all {
+			if al.Comment == "" || syntheticAlloc[al.Comment] {
+				continue
+			}
+			t := al.Type()
+			if p, ok := t.Underlying().(*types.Pointer); ok {
+				t = p.Elem()
+			}
+			tn := typeShort(t)
+			count[tn]++
+			if count[tn] == 1 {
+				m[al] = tn
+			} else {
+				m[al] = fmt.Sprintf("%s#%d", tn, count[tn])
+			}
+		}
+		allocNames[fn] = m
+	}
+	if n, ok := m[a]; ok {
+		return n
+	}
+	return a.Comment
 }
 
 func (tc *termCtx) allocAddr(a *ssa.Alloc, d int) string {
@@ -594,4 +655,54 @@ func reachingStores(a *ssa.Alloc, load ssa.Instruction) (out []*ssa.Store, zero 
 	walk(load.Block())
 	sort.Slice(out, func(i, j int) bool { return out[i].Pos() < out[j].Pos() })
 	return
+}
+
+var paramRe = regexp.MustCompile(`(^|[^A-Za-z0-9_])\$(\^*\d)`)
+
+var freeVarMemo = map[*ssa.FreeVar]string{}
+var freeVarBusy = map[*ssa.FreeVar]bool{}
+
+// freeVarTerm resolves a closure's free variable through the MakeClosure bindings of its parent.
+func (ff *FuncFacts) freeVarTerm(v *ssa.FreeVar) (string, bool) {
+	if t, ok := freeVarMemo[v]; ok {
+		return t, t != ""
+	}
+	if freeVarBusy[v] {
+		return "", false
+	}
+	freeVarBusy[v] = true
+	defer delete(freeVarBusy, v)
+	fn := v.Parent()
+	par := fn.Parent()
+	if par == nil {
+		return "", false
+	}
+	idx := -1
+	for i, f := range fn.FreeVars {
+		if f == v {
+			idx = i
+		}
+	}
+	var mc *ssa.MakeClosure
+	for _, b := range par.Blocks {
+		for _, in := range b.Instrs {
+			if m, ok := in.(*ssa.MakeClosure); ok && m.Fn == fn {
+				mc = m
+			}
+		}
+	}
+	if mc == nil || idx < 0 || idx >= len(mc.Bindings) {
+		freeVarMemo[v] = ""
+		return "", false
+	}
+	t := ff.P.Facts(par).Term(mc.Bindings[idx])
+	t = strings.TrimPrefix(t, "^")
+	// parameters of the enclosing function are written $^k inside a captured term
+	t = paramRe.ReplaceAllString(t, "$1$$^$2")
+	if strings.Contains(t, "…") || len(t) > 120 {
+		freeVarMemo[v] = ""
+		return "", false
+	}
+	freeVarMemo[v] = t
+	return t, true
 }
